@@ -173,7 +173,10 @@ func runWireSuite(seed uint64, n int, out *Out, stats *Stats) {
 				case 1:
 					jt.Inputs = []*JInput{}
 				}
-				jt.Outputs = jt.Outputs[:1]
+				// a reward has one output, however its absent inputs are written (null, [] or no key at all)
+				if r.Chance(1, 2) {
+					jt.Outputs = jt.Outputs[:1]
+				}
 			}
 			canon := *jt
 			canon.Inputs = nil
